@@ -770,6 +770,9 @@ class Interp:
                 k = idx.t.as_long()
                 if -len(base.items) <= k < len(base.items):
                     return base.items[k]
+                if fr.spec:
+                    # ill-typed sub-term of a clause (guarded elsewhere in the clause): unspecified value
+                    return VSeq(self.path.fresh_seq('undef'), 'list')
                 self.raise_builtin('IndexError', 'index out of range')
             raise OutOfSubset('symbolic index into concrete tuple/list')
         if isinstance(base, VDict):
